@@ -104,6 +104,25 @@ static Bound MakeBound(const Target &t) {
   return b;
 }
 
+// At least 24 GiB available to this process (machine and, if there is one, the cgroup limit).
+static bool EnoughMemoryForGiant() {
+  const int64_t need = 24ll << 30;
+  int64_t avail = -1;
+  if (FILE *f = fopen("/proc/meminfo", "r")) {
+    char line[256];
+    while (fgets(line, sizeof line, f)) { long long kb; if (sscanf(line, "MemAvailable: %lld kB", &kb) == 1) avail = kb * 1024; }
+    fclose(f);
+  }
+  if (avail >= 0 && avail < need) return false;
+  const char *limits[] = {"/sys/fs/cgroup/memory.max", "/sys/fs/cgroup/memory/memory.limit_in_bytes"};
+  for (const char *p : limits) if (FILE *f = fopen(p, "r")) {
+    char buf[64] = {0};
+    if (fgets(buf, sizeof buf, f)) { char *end = nullptr; long long v = strtoll(buf, &end, 10); if (end != buf && v > 0 && v < need) { fclose(f); return false; } }
+    fclose(f);
+  }
+  return true;
+}
+
 struct Built {
   vf::Geo g;
   int target_att, tag_att;
@@ -309,7 +328,14 @@ int main(int argc, char **argv) {
           std::string msg;
           try {
             int lock_fd = -1;
-            if (giant) { lock_fd = open((vf::VerifRoot() + "/build/giant.lock").c_str(), O_CREAT | O_RDWR, 0666); if (lock_fd >= 0) flock(lock_fd, LOCK_EX); }
+            if (giant) {
+              lock_fd = open((vf::VerifRoot() + "/build/giant.lock").c_str(), O_CREAT | O_RDWR, 0666);
+              if (lock_fd >= 0) flock(lock_fd, LOCK_EX);
+              // Only with plenty of memory to spare, and as the preferred victim should memory run out anyway.
+              if (!EnoughMemoryForGiant()) throw std::bad_alloc();
+              int ofd = open("/proc/self/oom_score_adj", O_WRONLY);
+              if (ofd >= 0) { (void)!write(ofd, "1000", 4); close(ofd); }
+            }
             if (giant) vf::AllocBegin(20ll << 30, 24ll << 30); else vf::AllocBegin(512ll << 20, 1024ll << 20);
             std::unique_ptr<Mesh> m = vf::ToMesh(b.g);
             vf::EncResult er = vf::Encode(b.g, *m, m.get(), o);
